@@ -13,6 +13,12 @@ CHECKS = {
          "as C01; refresh on a frozen manager may either refuse or succeed as long as nothing observable changes"),
  "C18": ("fault_enumeration", "3.4", "TLC fault model (every crash position of every reachable update) + replay with fault-injecting containers",
          "faults are injected at the first write of the k-th scheduled task (and the initial write); multi-write partial failures of a LinearKnob are out of the enumerated positions"),
+ "C11": ("model_checking", "4", "Manager.tla Transfer actions dumpload / copy_plain / copy_bind / copy_keep: the new manager's projection must equal the spec state and every later step on it must conform; plain and hostile keys",
+         "expression-language part (every node class, literal catalogue) is decided by Expr.tla, see evidence; manager menus hold 14-21 expressions"),
+ "C12": ("model_checking", "4", "Manager.tla Transfer actions pickle_copy / pickle_orig: pickle round trip as a stuttering step, behaviour continues on copy or original, the other side must not move",
+         "independence is checked by keeping the other side's projection and comparing it after every later step"),
+ "C13": ("translation_validation", "4", "per-program validation of mk_fun/gen_fun output against Manager.tla's GenFun action (defined as sequential assignment; TLC asserts the batch formulation agrees)",
+         "1- and 2-argument setters over undefined leaves at every reachable state; source text parsed line by line; structural-cycle orders are the recorded known finding"),
  "C07": ("model_checking", "6", "TableIndex.tla (index column + lazily built cache) checked with TLC; every generated transition replayed on a real Table, lookups compared with the spec's Resolve",
          "3-name alphabet, 0..3 rows exhaustive (4 thorough), node identity includes last probed snapshot so lookup/update interleavings stay distinct"),
  "C08": ("model_checking", "6", "RowSel.tla: the selector semantics as pure TLA+ operators; TLC enumerates every (table, selector[, selector]) case with its expected rows and each case is executed on a real Table (rows / rows.rows / indices / mask) under several hash seeds",
